@@ -17,9 +17,10 @@ func (n *CommonNode) Value() int {
 	return n.value
 }
 
-func (n *CommonNode) Reset() {
+func (n *CommonNode) Reset() bool {
 	n.value = n.max
 	n.Next()
+	return false
 }
 
 func (n *CommonNode) Next() (overflowed bool) {
